@@ -226,6 +226,12 @@ func (g *gen) polygon() string {
 	d := g.dims()
 	var parts []string
 	for i := 0; i < n; i++ {
+		if i > 0 && rapid.IntRange(0, 7).Draw(t, "pointhole") == 0 {
+			// a well-formed interior ring whose positions all coincide: it cuts nothing out, but it is a ring of the document
+			p := g.position(d, false)
+			parts = append(parts, "["+strings.Repeat(p+","+g.ws(), rapid.IntRange(3, 5).Draw(t, "pointholen"))+p+"]")
+			continue
+		}
 		parts = append(parts, g.ring(d))
 	}
 	return "[" + g.ws() + strings.Join(parts, ","+g.ws()) + "]"
@@ -257,6 +263,18 @@ func (g *gen) rectPolygon() string {
 			pos += fmt.Sprintf(",%d", (i%4)*10+k+1)
 		}
 		parts = append(parts, pos+"]")
+	}
+	if x1-x0 >= 3 && y1-y0 >= 3 && rapid.IntRange(0, 3).Draw(t, "rhole") == 0 {
+		// a perfect rectangle with a hole in it is not a Rect
+		var hole []string
+		for i, p := range [][2]int{{x0 + 1, y0 + 1}, {x0 + 1, y0 + 2}, {x0 + 2, y0 + 2}, {x0 + 2, y0 + 1}, {x0 + 1, y0 + 1}} {
+			pos := fmt.Sprintf("[%d,%d", p[0], p[1])
+			for k := 0; k < zdims; k++ {
+				pos += fmt.Sprintf(",%d", (i%4)*10+k+1)
+			}
+			hole = append(hole, pos+"]")
+		}
+		return "[[" + strings.Join(parts, ",") + "],[" + strings.Join(hole, ",") + "]]"
 	}
 	return "[[" + strings.Join(parts, ",") + "]]"
 }
